@@ -200,7 +200,11 @@ def gen_cases(rng, tier):
             items = strip_meas(items)
         mkind, qmap = gen_map(rng, qubits)
         settings = gen_settings(rng, [n for _, n in qmap])
-        cases.append(mk(items, settings, qmap, mkind))
+        c = mk(items, settings, qmap, mkind)
+        # a third of the cases dress the same circuit once before, with the SAME settings object and the identifiers rotated over the
+        # indices (state surviving between calls -- memo tables, shared defaults -- must not leak into the judged result)
+        c['warm'] = rng.random() < 0.33
+        cases.append(c)
     return cases
 
 
@@ -298,7 +302,7 @@ def to_coq(c, o):
 
 # ------------------------------------------------------------------------------------------------ metadata
 def kind(c):
-    return c['k'] if c['k'] != 'dress' else 'dress/map=' + c.get('mkind', '?') + ('/defaults' if c['settings'] is None else '')
+    return c['k'] if c['k'] != 'dress' else 'dress/map=' + c.get('mkind', '?') + ('/defaults' if c['settings'] is None else '') + ('/warm' if c.get('warm') else '')
 
 
 def blocks_of(flat):
